@@ -7,12 +7,17 @@ import MgpuProofs.C11CpShare
 functions `Cp.handle / Cp.dmaRsp` of `MgpuModel/C11Cp.lean`, reused), and the shootdown path of
 `ctrlMiddleware` (`processShootdownCommand`, `processCUPipelineFlushRsp`,
 `processAddressTranslatorFlushRsp`, the shared `processCacheFlushRsp` with its real guard,
-`processTLBFlushRsp`; unchecked `Send`s drop into full buffers) — and of its environment after an
+`processTLBFlushRsp`; unchecked `Send`s drop into full buffers), and the THIRD user of `numCacheACK`,
+`cpMiddleware.processLaunchKernelReq` / `invalidateL1CachesBeforeKernel` (invalidating flush requests to
+the L1 scalar and vector caches before a kernel starts on an idle GPU) — and of its environment after an
 ARBITRARY list of environment moves `SOp`: the moves of `CpOp` (request, tick, takes, cache
-acknowledgement, DMA answer), a `ShootDownCommand` arriving, the compute units / address translators /
+acknowledgement, DMA answer), a `ShootDownCommand` arriving, a `LaunchKernelReq` arriving, a dispatcher
+finishing its kernel, the compute units / address translators /
 TLBs taking `k` messages or acknowledging their `j`-th outstanding request — for an ARBITRARY
 configuration `CpSCfg` (numbers of components, all buffer capacities). `CpSEnv.step` is the function
-the correspondence check runs against the real component (`c11 cps` case lines). -/
+the correspondence check runs against the real component (`c11 cps` case lines). `reachCpsOld` is the same
+for the code BEFORE repair 0728adcb (`processFlushReq` without the `shootDownInProcess` guard,
+`processShootdownCommand` without the `numCacheACK > 0` guard). -/
 namespace C11
 
 /-- flush + copies, no shootdown -/
@@ -20,21 +25,24 @@ def cpsDemoPlainOps : List CpOp :=
   [.req .flush, .req .h2d, .tick, .takeCache 9, .ack 2, .ack 0, .ack 0, .ack 0, .tick, .tick, .tick, .tick, .takeDma 9,
    .rsp 0, .tick, .takeDrv 9]
 
-/-- **1. Without a shootdown the shared component IS the component of `Props/C11Cp.lean`.** A run of
-    the shared environment whose moves contain no `ShootDownCommand` (moves of the compute units,
+/-- **1. Without a shootdown and without a kernel launch the shared component IS the component of
+    `Props/C11Cp.lean`.** A run of
+    the shared environment whose moves contain no `ShootDownCommand` and no `LaunchKernelReq` (moves of the
+    dispatchers, compute units,
     address translators and TLBs are allowed: they find nothing) projects onto the run of `CpEnv` with
     the same copy / flush moves: the state `c : Cp` (buffers, `numCacheACK`, `currFlushRequest`, clone
     maps, fault, ghost log), the requests sent, everything at the DMA engine and the caches and what the
     driver has taken are EQUAL. So every theorem of `Props/C11Cp.lean` (`cp_flush_protocol`,
     `cp_no_copy_during_flush`, `cp_flush_acked_once_after_all_caches`, `cp_copies_forwarded_once_in_order`,
     `cp_copies_answered_once`, `cp_nothing_dropped`, `cp_quiet_all_answered`, `cp_no_fault`) holds for
-    the shared component as long as no shootdown is issued. -/
-theorem cps_without_shootdown_is_cp (g : CpSCfg) (ops : List SOp) (hn : ∀ op ∈ ops, op ≠ SOp.shoot) :
+    the shared component as long as neither a shootdown nor a kernel launch is issued. -/
+theorem cps_without_shootdown_is_cp (g : CpSCfg) (ops : List SOp)
+    (hn : ∀ op ∈ ops, op ≠ SOp.shoot ∧ op ≠ SOp.launch) :
     (reachCps g ops).toCp = reachCp g.nCaches g.capIn g.capDrv g.capDma g.capCache (ops.filterMap SOp.cp?) ∧
-    (reachCps g ops).s.shoot = false ∧ (reachCps g ops).s.later = [] ∧ (reachCps g ops).s.outEarlier = [] := by
-  have hp : (CpSEnv.init g).Plain := ⟨⟨rfl, rfl, rfl, rfl, rfl, rfl, rfl, rfl, rfl⟩, rfl, rfl, rfl⟩
-  obtain ⟨a, b⟩ := CpSEnv.run_plain ops hp hn
-  exact ⟨a, b.s.shoot, b.s.later, b.s.outEarlier⟩
+    (reachCps g ops).s.shoot = false ∧ (reachCps g ops).s.later = [] ∧ (reachCps g ops).s.outEarlier = [] ∧
+    (reachCps g ops).s.l1Inv = none := by
+  obtain ⟨a, b⟩ := CpSEnv.run_plain ops (CpSEnv.init_plain g) hn
+  exact ⟨a, b.s.shoot, b.s.later, b.s.outEarlier, b.s.l1Inv⟩
 
 example : (reachCps {} (cpsDemoPlainOps.map .cp)).s.c.log =
     [.flushStart 0, .cacheReq 0, .cacheReq 1, .cacheReq 2, .cacheReq 3, .ack, .ack, .ack, .ack, .flushDone 0 true,
@@ -48,8 +56,7 @@ example : (reachCps {} (cpsDemoPlainOps.map .cp)).s.c.log =
 theorem cps_without_shootdown_same_trace (g : CpSCfg) (ops : List CpOp) (hn : g.nCaches ≤ resetBase) :
     (CpSEnv.init g).trace (ops.map SOp.cp) =
       (CpEnv.init g.nCaches g.capIn g.capDrv g.capDma g.capCache).cpsTrace ops := by
-  have hp : (CpSEnv.init g).Plain := ⟨⟨rfl, rfl, rfl, rfl, rfl, rfl, rfl, rfl, rfl⟩, rfl, rfl, rfl⟩
-  exact CpSEnv.trace_plain ops hp (by intro x hx; cases hx) hn
+  exact CpSEnv.trace_plain ops (CpSEnv.init_plain g) (by intro x hx; cases hx) hn
 
 example : (CpSEnv.init {}).trace (cpsDemoPlainOps.map SOp.cp) =
     ["ok", "ok", "t1", "xc[0,1,2,3]", "ok", "ok", "ok", "ok", "t1", "t1", "t1", "t0", "xd[h1]", "ok", "t1",
@@ -57,47 +64,85 @@ example : (CpSEnv.init {}).trace (cpsDemoPlainOps.map SOp.cp) =
 
 /-- one theorem of `Props/C11Cp.lean` carried over as an instance: without a shootdown the shared
     component never panics when ToCaches holds one request per cache -/
-theorem cps_without_shootdown_no_fault (g : CpSCfg) (ops : List SOp) (hn : ∀ op ∈ ops, op ≠ SOp.shoot)
+theorem cps_without_shootdown_no_fault (g : CpSCfg) (ops : List SOp)
+    (hn : ∀ op ∈ ops, op ≠ SOp.shoot ∧ op ≠ SOp.launch)
     (hcap : g.nCaches ≤ g.capCache) : (reachCps g ops).s.c.fault = none := by
   have h := (cps_without_shootdown_is_cp g ops hn).1
   have := (reach_all g.nCaches g.capIn g.capDrv g.capDma g.capCache (ops.filterMap SOp.cp?)).2.2.2 hcap
   rw [← h] at this
   exact this
 
-example : (reachCps {} [.cp (.req .flush), .take .cu 3, .cp .tick, .ack .tlb 0, .query]).s.c.fault = none :=
+example : (reachCps {} [.cp (.req .flush), .take .cu 3, .cp .tick, .ack .tlb 0, .kdone, .query]).s.c.fault = none :=
   cps_without_shootdown_no_fault _ _ (by decide) (by decide)
 
-/-! ## 2. the full statement is false: a flush that overlaps a shootdown -/
+/-! ## 2. flushes, copies and shootdowns in ANY interleaving: every request is answered -/
 
-/-- **Full statement (false for the code as it is).** With every class of component present and
-    buffers that hold one loop of `Send`s: the command processor never panics, and in every quiet state
-    (nothing in any buffer, nothing unacknowledged at any component; no `ShootdownCompleteRsp` was lost
-    to a full ToDriver) every request the driver port accepted — flush, copies, shootdown — has been
-    answered exactly once. -/
-def cps_flush_answered_full : Prop :=
-  ∀ (g : CpSCfg) (ops : List SOp), g.Roomy →
-    (reachCps g ops).s.c.fault = none ∧
-    ((reachCps g ops).quiet → (reachCps g ops).s.dropDone = 0 → (reachCps g ops).allAnswered)
-
-/-- variant 1 of finding `C19-cp-flush-lost-in-shootdown`: the flush request is taken while the
-    shootdown waits for the compute units (`numCacheACK == 0`); everything is acknowledged honestly -/
+/-- variant 1 of the (repaired) finding `C19-cp-flush-lost-in-shootdown`: the flush request arrives while
+    the shootdown waits for the compute units (`numCacheACK == 0`); everything is acknowledged honestly -/
 def cpsDemoLost : List SOp :=
   [.shoot, .cp .tick, .cp (.req .flush), .cp .tick, .take .cu 9, .ack .cu 0, .cp .tick, .take .at 9, .ack .at 0,
    .cp .tick, .cp (.takeCache 9), .cp (.ack 0), .cp (.ack 0), .cp (.ack 0), .cp (.ack 0), .cp (.ack 0), .cp (.ack 0),
    .cp (.ack 0), .cp (.ack 0), .cp .tick, .cp .tick, .cp .tick, .cp .tick, .cp .tick, .cp .tick, .cp .tick, .cp .tick,
    .take .tlb 9, .ack .tlb 0, .cp .tick, .cp (.takeDrv 9)]
 
-/-- variant 2: the shootdown is taken while the flush waits for the caches; the flush's own four
-    acknowledgements end the shootdown's cache phase before it began -/
+/-- variant 2: the shootdown command arrives while the flush waits for the caches -/
 def cpsDemoNil : List SOp :=
   [.cp (.req .flush), .cp .tick, .shoot, .cp .tick, .cp (.takeCache 4), .cp (.ack 0), .cp (.ack 0), .cp (.ack 0),
    .cp (.ack 0), .cp .tick, .cp .tick, .cp .tick, .cp .tick, .take .tlb 1, .ack .tlb 0, .cp .tick, .cp (.takeDrv 1),
    .take .cu 1, .ack .cu 0, .cp .tick, .take .at 1, .ack .at 0, .cp .tick, .cp (.takeCache 9), .cp (.ack 0),
    .cp (.ack 0), .cp (.ack 0), .cp (.ack 0), .cp .tick, .cp .tick, .cp .tick, .cp .tick]
 
-/-- **Both variants of the finding, kernel-checked on the model** (and replayed on the real
-    `cp.CommandProcessor` by `harness/c11_share.go`, whose traces the correspondence compares with these
-    runs). Variant 1: the run ends quiet, without fault, all counters 0 — the driver has received the
+/-- the moves that let the repaired code finish variant 1 (the flush was held back behind the shootdown) -/
+def cpsDemoLostTail : List SOp :=
+  [.cp .tick, .cp (.takeCache 9), .cp (.ack 0), .cp (.ack 0), .cp (.ack 0), .cp (.ack 0), .cp .tick, .cp .tick, .cp .tick,
+   .cp .tick, .cp (.takeDrv 9)]
+
+/-- the moves that let the repaired code finish variant 2 (the shootdown was held back behind the flush) -/
+def cpsDemoNilTail : List SOp := [.take .tlb 1, .ack .tlb 0, .cp .tick, .cp (.takeDrv 9)]
+
+/-- **2. Full statement — a THEOREM since repair 0728adcb** (`processFlushReq` waits while
+    `shootDownInProcess`, `processShootdownCommand` waits while `numCacheACK > 0`). For every
+    configuration with every class of component present and buffers that hold one loop of `Send`s
+    (`CpSCfg.Roomy`), for EVERY list of environment moves that delivers flush requests, H2D / D2H copy
+    requests and `ShootDownCommand`s in ANY interleaving — no discipline of the driver is assumed any
+    more, the two guards of the command processor itself keep the two users of `numCacheACK` apart —
+    with ticks, takes and acknowledgements in any order and any back-pressure: the command processor
+    never panics (no nil dereference of `currFlushRequest`, no `never`, no `cache_send`); no unchecked
+    `Send` of a loop drops a message; and in every quiet state (nothing in any buffer, nothing
+    unacknowledged at any component) in which no `ShootdownCompleteRsp` was handed to a full ToDriver
+    (`dropDone = 0` — that `Send` is still unchecked) the driver has taken exactly one answer per accepted
+    flush / H2D / D2H request and one `ShootdownCompleteRsp` per accepted shootdown command.
+    (`cpsNoLaunch`: the moves deliver no `LaunchKernelReq`; the runs with kernel launches are section 4.) -/
+theorem cps_flush_answered_full (g : CpSCfg) (ops : List SOp) (hr : g.Roomy) (hn : cpsNoLaunch ops) :
+    (reachCps g ops).s.c.fault = none ∧
+    ((reachCps g ops).s.dropCU = 0 ∧ (reachCps g ops).s.dropAT = 0 ∧ (reachCps g ops).s.dropC = 0 ∧
+      (reachCps g ops).s.dropTLB = 0) ∧
+    ((reachCps g ops).quiet → (reachCps g ops).s.dropDone = 0 → (reachCps g ops).allAnswered) := by
+  have h := cps_reach_serInv g hr ops (cps_serial_of_noLaunch ops _ hn)
+  exact ⟨h.nf, h.rest.nodrop, fun hq hd => h.quiet_answered hr (cps_reach_nodrop g ops) hq hd⟩
+
+/-- the two overlapping runs of the former finding on the repaired code: the later request waits in the
+    driver port until the earlier user of the counter is done; both are answered -/
+example : cpsNoLaunch (cpsDemoLost ++ cpsDemoLostTail) ∧ ({} : CpSCfg).Roomy ∧
+    (reachCps {} (cpsDemoLost ++ cpsDemoLostTail)).quiet ∧
+    (reachCps {} (cpsDemoLost ++ cpsDemoLostTail)).drained = [.sdone 0, .ans ⟨0, .flush⟩] ∧
+    (reachCps {} (cpsDemoLost ++ cpsDemoLostTail)).s.sig = "0,0,0,0,0,0,0,0,0" ∧
+    cpsNoLaunch (cpsDemoNil ++ cpsDemoNilTail) ∧ (reachCps {} (cpsDemoNil ++ cpsDemoNilTail)).quiet ∧
+    (reachCps {} (cpsDemoNil ++ cpsDemoNilTail)).s.c.fault = none ∧
+    (reachCps {} (cpsDemoNil ++ cpsDemoNilTail)).drained = [.ans ⟨0, .flush⟩, .sdone 0] := by
+  unfold CpSEnv.quiet CpSCfg.Roomy cpsNoLaunch
+  decide +kernel
+
+/-- **Statement 2 for the code before repair 0728adcb** (`CpSEnv.stepOld`: `CpS.handleOld` takes a flush
+    request while `shootDownInProcess`, `CpS.hShootOld` takes a shootdown command while
+    `numCacheACK > 0`; everything else is the same function). -/
+def cps_flush_answered_before_fix : Prop :=
+  ∀ (g : CpSCfg) (ops : List SOp), g.Roomy → cpsNoLaunch ops →
+    (reachCpsOld g ops).s.c.fault = none ∧
+    ((reachCpsOld g ops).quiet → (reachCpsOld g ops).s.dropDone = 0 → (reachCpsOld g ops).allAnswered)
+
+/-- **Both variants of the repaired finding, kernel-checked on the model of the old code.** Variant 1:
+    the run ends quiet, without fault, all counters 0 — the driver has received the
     `ShootdownCompleteRsp` and NO answer to its flush request: the flush's acknowledgements and the
     shootdown's reset acknowledgements were counted together, the last one ran
     `processCacheFlushCausedByTLBShootdown`, which clears `currFlushRequest`. Variant 2: the flush's
@@ -105,42 +150,43 @@ def cpsDemoNil : List SOp :=
     `ShootdownCompleteRsp` go out before the compute units, translators and caches were touched, and the
     shootdown's later cache acknowledgements end in `processRegularCacheFlush` with
     `currFlushRequest == nil`: nil-pointer panic. -/
-theorem cps_flush_overlap_witnesses :
-    ((reachCps {} cpsDemoLost).quiet ∧ (reachCps {} cpsDemoLost).s.c.fault = none ∧
-      (reachCps {} cpsDemoLost).sent = [⟨0, .flush⟩] ∧ (reachCps {} cpsDemoLost).drained = [.sdone 0] ∧
-      (reachCps {} cpsDemoLost).s.sig = "0,0,0,0,0,0") ∧
-    ((reachCps {} cpsDemoNil).s.c.fault = some "nilderef" ∧ (reachCps {} cpsDemoNil).drained = [.sdone 0]) := by
+theorem cps_flush_overlap_witnesses_before_fix :
+    ((reachCpsOld {} cpsDemoLost).quiet ∧ (reachCpsOld {} cpsDemoLost).s.c.fault = none ∧
+      (reachCpsOld {} cpsDemoLost).sent = [⟨0, .flush⟩] ∧ (reachCpsOld {} cpsDemoLost).drained = [.sdone 0] ∧
+      (reachCpsOld {} cpsDemoLost).s.sig = "0,0,0,0,0,0,0,0,0") ∧
+    ((reachCpsOld {} cpsDemoNil).s.c.fault = some "nilderef" ∧ (reachCpsOld {} cpsDemoNil).drained = [.sdone 0]) := by
   unfold CpSEnv.quiet
   decide +kernel
 
-/-- **Refuted:** the full statement is false for the code as it is — finding
-    `C19-cp-flush-lost-in-shootdown` (`known_findings.d/C19.json`), seen from the copy path: the default
-    configuration (one component per class, shipped 4096-entry buffers, so `Roomy`) and the two runs of
-    `cps_flush_overlap_witnesses`; the run `cpsDemoNil` panics (first clause), the run `cpsDemoLost` ends
-    quiet with the flush unanswered (second clause, see the `example` below). -/
-theorem cps_flush_answered_full_refuted : ¬ cps_flush_answered_full := by
+/-- **Refuted for the old code:** the default configuration (one component per class, shipped
+    4096-entry buffers, so `Roomy`) and the two runs of `cps_flush_overlap_witnesses_before_fix`; the
+    run `cpsDemoNil` panics (first clause), the run `cpsDemoLost` ends quiet with the flush unanswered
+    (second clause, see the `example` below). This was finding `C19-cp-flush-lost-in-shootdown`. -/
+theorem cps_flush_answered_before_fix_refuted : ¬ cps_flush_answered_before_fix := by
   intro h
   have hr : ({} : CpSCfg).Roomy := by unfold CpSCfg.Roomy; decide
-  obtain ⟨⟨hq, _, hs, hd, _⟩, hn, _⟩ := cps_flush_overlap_witnesses
-  -- variant 2 contradicts the first clause, variant 1 the second
-  have h2 := (h {} cpsDemoNil hr).1
+  obtain ⟨_, hn, _⟩ := cps_flush_overlap_witnesses_before_fix
+  have h2 := (h {} cpsDemoNil hr (by unfold cpsNoLaunch; decide)).1
   rw [hn] at h2
   cases h2
 
-/-- the second clause alone is refuted as well (variant 1: quiet, no fault, the flush unanswered) -/
-example : ¬ ((reachCps {} cpsDemoLost).quiet → (reachCps {} cpsDemoLost).s.dropDone = 0 → (reachCps {} cpsDemoLost).allAnswered) := by
+/-- the second clause alone is refuted as well for the old code (variant 1: quiet, no fault, the flush
+    unanswered) -/
+example : ¬ ((reachCpsOld {} cpsDemoLost).quiet → (reachCpsOld {} cpsDemoLost).s.dropDone = 0 →
+    (reachCpsOld {} cpsDemoLost).allAnswered) := by
   intro h
-  obtain ⟨⟨hq, _, hs, hd, _⟩, _⟩ := cps_flush_overlap_witnesses
+  obtain ⟨⟨hq, _, hs, hd, _⟩, _⟩ := cps_flush_overlap_witnesses_before_fix
   have := (h hq (by decide +kernel)).1.length_eq
   rw [hs, hd] at this
   exact absurd this (by decide)
 
-/-! ## 3. what IS safe -/
+/-! ## 3. the counter account, the flush protocol, copies and the shootdown phases -/
 
-/-- **(a) No copy is handed to the DMA engine while a cache request of EITHER origin is
-    unacknowledged** — for every configuration, every event order, overlapping flushes and shootdowns
-    included. In every reachable state the shared counter `numCacheACK` equals the cache requests
-    (flush requests of `processFlushReq` and reset requests of the shootdown) waiting in ToCaches + taken
+/-- **(a) No copy is handed to the DMA engine while a cache request of ANY of the three origins is
+    unacknowledged** — for every configuration, every event order, kernel launches included. In every
+    reachable state the shared counter `numCacheACK` equals the cache requests
+    (flush requests of `processFlushReq`, reset requests of the shootdown, invalidation requests of
+    `invalidateL1CachesBeforeKernel`) waiting in ToCaches + taken
     by the caches and not acknowledged + acknowledgements waiting in the port + reset requests lost by the
     unchecked `ToCaches.Send` (so a lost reset request keeps the counter above 0 for ever). And for every
     forward event in the log (`processMemCopyReq` sent a clone to ToDMA): before it, the counter was
@@ -167,7 +213,7 @@ example : (reachCps {} [.shoot, .cp (.req .h2d), .cp .tick, .take .cu 1, .ack .c
     ever, the copy behind the shootdown is never forwarded -/
 example : (reachCps { capCache := 2 } [.shoot, .cp .tick, .take .cu 1, .ack .cu 0, .cp .tick, .take .at 1, .ack .at 0,
       .cp .tick, .cp (.req .h2d), .cp .tick, .cp (.takeCache 9), .cp (.ack 0), .cp (.ack 0), .cp .tick, .cp .tick, .cp .tick]).s.sig =
-      "0,0,0,2,1,0" ∧
+      "0,0,0,2,1,0,0,0,0" ∧
     (reachCps { capCache := 2 } [.shoot, .cp .tick, .take .cu 1, .ack .cu 0, .cp .tick, .take .at 1, .ack .at 0,
       .cp .tick, .cp (.req .h2d), .cp .tick, .cp (.takeCache 9), .cp (.ack 0), .cp (.ack 0), .cp .tick, .cp .tick, .cp .tick]).s.dropC = 2 ∧
     (reachCps { capCache := 2 } [.shoot, .cp .tick, .take .cu 1, .ack .cu 0, .cp .tick, .take .at 1, .ack .at 0,
@@ -175,8 +221,8 @@ example : (reachCps { capCache := 2 } [.shoot, .cp .tick, .take .cu 1, .ack .cu 
       [⟨0, .h2d⟩] := by
   decide +kernel
 
-/-- a serialised run: shootdown with two copies behind it, then a flush, then a second shootdown;
-    acknowledgements out of order -/
+/-- shootdown with two copies behind it, then a flush, then a second shootdown; acknowledgements out of
+    order -/
 def cpsDemoSerial : List SOp :=
   [.shoot, .cp (.req .h2d), .cp .tick, .take .cu 1, .ack .cu 0, .cp .tick, .take .at 1, .ack .at 0, .cp .tick,
    .cp (.req .d2h), .cp (.takeCache 9), .cp (.ack 3), .cp (.ack 0), .cp (.ack 1), .cp (.ack 0), .cp .tick, .cp .tick,
@@ -187,44 +233,18 @@ def cpsDemoSerial : List SOp :=
    .cp (.ack 0), .cp (.ack 0), .cp .tick, .cp .tick, .cp .tick, .cp .tick, .take .tlb 1, .ack .tlb 0, .cp .tick,
    .cp (.takeDrv 9)]
 
-/-- **(b) Serialised use of the counter is safe** — the `…_partial` of `cps_flush_answered_full`.
-    `CpSEnv.serial` is the driver's discipline, checked move by move in the state the move is made in: a
-    `ShootDownCommand` is delivered only when the driver has received an answer for every flush request
-    it sent (`flushOut = false`: none waits in the port, none is open), a flush request only when it has
-    received a `ShootdownCompleteRsp` for every shootdown command (`shootOut = false`: none waits in the
-    port, none is in process); copies, ticks, takes and acknowledgements in ANY order and with any
-    back-pressure. Then, for every configuration with all component classes present and buffers that hold
-    one loop of `Send`s (`CpSCfg.Roomy`), for every such run: the command processor never panics (no
-    nil dereference of `currFlushRequest`, no `never`, no `cache_send`); no unchecked `Send` of a loop
-    drops a message; and in every quiet state in which no `ShootdownCompleteRsp` was handed to a full
-    ToDriver (`dropDone = 0` — that `Send` is unchecked too) the driver has taken exactly one answer per
-    accepted flush / H2D / D2H request and one `ShootdownCompleteRsp` per accepted shootdown command. -/
-theorem cps_serialised_is_safe (g : CpSCfg) (ops : List SOp) (hr : g.Roomy)
-    (hs : (CpSEnv.init g).serial ops = true) :
-    (reachCps g ops).s.c.fault = none ∧
-    ((reachCps g ops).s.dropCU = 0 ∧ (reachCps g ops).s.dropAT = 0 ∧ (reachCps g ops).s.dropC = 0 ∧
-      (reachCps g ops).s.dropTLB = 0) ∧
-    ((reachCps g ops).quiet → (reachCps g ops).s.dropDone = 0 → (reachCps g ops).allAnswered) := by
-  have h := cps_reach_serInv g hr ops hs
-  exact ⟨h.nf, h.rest.nodrop, fun hq hd => h.quiet_answered hr (cps_reach_nodrop g ops) hq hd⟩
-
-example : (CpSEnv.init {}).serial cpsDemoSerial = true ∧ ({} : CpSCfg).Roomy ∧ (reachCps {} cpsDemoSerial).quiet ∧
+/-- an instance of `cps_flush_answered_full` -/
+example : cpsNoLaunch cpsDemoSerial ∧ ({} : CpSCfg).Roomy ∧ (reachCps {} cpsDemoSerial).quiet ∧
     (reachCps {} cpsDemoSerial).s.dropDone = 0 ∧
     (reachCps {} cpsDemoSerial).drained = [.sdone 0, .ans ⟨1, .d2h⟩, .ans ⟨0, .h2d⟩, .ans ⟨2, .flush⟩, .sdone 1] ∧
     (reachCps {} cpsDemoSerial).sent = [⟨0, .h2d⟩, ⟨1, .d2h⟩, ⟨2, .flush⟩] ∧ (reachCps {} cpsDemoSerial).shootSent = 2 := by
-  unfold CpSEnv.quiet CpSCfg.Roomy
+  unfold CpSEnv.quiet CpSCfg.Roomy cpsNoLaunch
   decide +kernel
 
-/-- the two overlapping runs of the finding are NOT serialised (the hypothesis excludes exactly them) -/
-example : (CpSEnv.init {}).serial cpsDemoLost = false ∧ (CpSEnv.init {}).serial cpsDemoNil = false := by decide +kernel
-
-/-- the remaining hypothesis `dropDone = 0` is needed: `processTLBFlushRsp` ignores the error of
-    `ToDriver.Send`; with a one-entry ToDriver that still holds a copy's answer the
-    `ShootdownCompleteRsp` is lost although the run is serialised -/
-example : (CpSEnv.init { capDrv := 1 }).serial [.cp (.req .h2d), .cp .tick, .cp (.takeDma 1), .cp (.rsp 0), .cp .tick, .shoot,
-      .cp .tick, .take .cu 1, .ack .cu 0, .cp .tick, .take .at 1, .ack .at 0, .cp .tick, .cp (.takeCache 9), .cp (.ack 0),
-      .cp (.ack 0), .cp (.ack 0), .cp (.ack 0), .cp .tick, .cp .tick, .cp .tick, .cp .tick, .take .tlb 1, .ack .tlb 0, .cp .tick,
-      .cp (.takeDrv 9)] = true ∧
+/-- the remaining hypothesis `dropDone = 0` of `cps_flush_answered_full` is needed:
+    `processTLBFlushRsp` ignores the error of `ToDriver.Send`; with a one-entry ToDriver that still holds a
+    copy's answer the `ShootdownCompleteRsp` is lost -/
+example :
     (reachCps { capDrv := 1 } [.cp (.req .h2d), .cp .tick, .cp (.takeDma 1), .cp (.rsp 0), .cp .tick, .shoot,
       .cp .tick, .take .cu 1, .ack .cu 0, .cp .tick, .take .at 1, .ack .at 0, .cp .tick, .cp (.takeCache 9), .cp (.ack 0),
       .cp (.ack 0), .cp (.ack 0), .cp (.ack 0), .cp .tick, .cp .tick, .cp .tick, .cp .tick, .take .tlb 1, .ack .tlb 0, .cp .tick,
@@ -234,8 +254,8 @@ example : (CpSEnv.init { capDrv := 1 }).serial [.cp (.req .h2d), .cp .tick, .cp 
       .cp (.ack 0), .cp (.ack 0), .cp (.ack 0), .cp .tick, .cp .tick, .cp .tick, .cp .tick, .take .tlb 1, .ack .tlb 0, .cp .tick,
       .cp (.takeDrv 9)]).s.dropDone = 1 := by decide +kernel
 
-/-- **(b) The flush protocol of `Props/C11Cp.lean` still holds in serialised runs**, shootdowns in
-    between: the copy / flush path's event log is accepted by the acceptor `specStep` (a flush starts
+/-- **(b) The flush protocol of `Props/C11Cp.lean` holds with shootdowns in ANY interleaving**
+    (launch-free runs): the copy / flush path's event log is accepted by the acceptor `specStep` (a flush starts
     only when none is open, asks every cache once in order, is answered only when all `n` caches were
     asked and every request acknowledged; a copy is forwarded only when no flush is open); hence before
     every forward event every started flush was answered and every flush request acknowledged; and the
@@ -243,8 +263,7 @@ example : (CpSEnv.init { capDrv := 1 }).serial [.cp (.req .h2d), .cp .tick, .cp 
     acknowledgements processed, with no copy forwarded in between. (The shootdown's reset requests and
     their acknowledgements are not events of this log: they are `SEv.reset` / `SEv.ackS` of the shared
     log, and `cps_no_copy_while_cache_acks_outstanding` covers them.) -/
-theorem cps_serialised_flush_protocol (g : CpSCfg) (ops : List SOp) (hr : g.Roomy)
-    (hs : (CpSEnv.init g).serial ops = true) :
+theorem cps_flush_protocol (g : CpSCfg) (ops : List SOp) (hr : g.Roomy) (hn : cpsNoLaunch ops) :
     (∃ q, specRun g.nCaches {} (reachCps g ops).s.c.log = some q) ∧
     (∀ pre post ev, ev.isFwd = true → (reachCps g ops).s.c.log = pre ++ ev :: post →
       pre.filterMap CpEv.flushStart? = pre.filterMap CpEv.flushDone? ∧
@@ -253,7 +272,7 @@ theorem cps_serialised_flush_protocol (g : CpSCfg) (ops : List SOp) (hr : g.Room
       (∃ p1 p2, pre = p1 ++ .flushStart f :: p2 ∧ p2.filterMap CpEv.cacheIdx? = List.range g.nCaches ∧
         p2.countP CpEv.isAck = g.nCaches ∧ ∀ ev ∈ p2, ev.isFwd = false) ∧
       f ∉ pre.filterMap CpEv.flushDone? ∧ f ∉ post.filterMap CpEv.flushDone?) := by
-  have h := cps_reach_serInv g hr ops hs
+  have h := cps_reach_serInv g hr ops (cps_serial_of_noLaunch ops _ hn)
   obtain ⟨q, hq, _⟩ := h.inv.flush.spec
   have hq' : specRun g.nCaches {} (reachCps g ops).s.c.log = some q := by
     rw [← h.rest.ncaches]; exact hq
@@ -270,15 +289,14 @@ example : (reachCps {} cpsDemoSerial).s.c.log =
     [.fwd 0 0 .h2d true, .fwd 1 1 .d2h true, .done 1 1 .d2h true, .flushStart 2, .cacheReq 0, .cacheReq 1, .cacheReq 2,
      .cacheReq 3, .done 0 0 .h2d true, .ack, .ack, .ack, .ack, .flushDone 2 true] := by decide +kernel
 
-/-- **(b) Copies in serialised runs: forwarded once in arrival order, answered once for the original
+/-- **(b) Copies with shootdowns in any interleaving (launch-free runs): forwarded once in arrival order, answered once for the original
     request** (the statements of `cp_copies_forwarded_once_in_order` / `cp_copies_answered_once`): the
     requests the driver port accepted are the requests taken from the port (one `flushStart` / `fwd`
     event each, in arrival order) followed by those waiting in the port — in front of and behind
     shootdown commands; the clones the DMA side has seen plus those in ToDMA are the forward events in
     order; the answers the driver has taken plus those in ToDriver (between the `ShootdownCompleteRsp`s)
     are the answer events in order; no request is answered twice; clone ids are pairwise distinct. -/
-theorem cps_serialised_copies_once (g : CpSCfg) (ops : List SOp) (hr : g.Roomy)
-    (hs : (CpSEnv.init g).serial ops = true) :
+theorem cps_copies_once (g : CpSCfg) (ops : List SOp) (hr : g.Roomy) (hn : cpsNoLaunch ops) :
     (reachCps g ops).sent.map (·.id) = List.range (reachCps g ops).sent.length ∧
     (reachCps g ops).sent = (reachCps g ops).s.c.log.filterMap CpEv.popped? ++
       ((reachCps g ops).s.c.drvIn ++ (reachCps g ops).s.later.filterMap SIn.req?) ∧
@@ -288,7 +306,7 @@ theorem cps_serialised_copies_once (g : CpSCfg) (ops : List SOp) (hr : g.Roomy)
       (reachCps g ops).s.c.log.filterMap CpEv.rsp? ∧
     ((reachCps g ops).s.c.log.filterMap CpEv.doneOrig?).Nodup ∧
     ((reachCps g ops).s.c.log.filterMap CpEv.fwdCid?).Nodup := by
-  have h := cps_reach_serInv g hr ops hs
+  have h := cps_reach_serInv g hr ops (cps_serial_of_noLaunch ops _ hn)
   obtain ⟨r, hr1, hr2⟩ := h.inv.pop.popped
   refine ⟨h.inv.pop.ids, ?_, h.inv.copy.clones, h.inv.rsp.rsps, h.inv.copy.done_orig, ?_⟩
   · rw [hr2 h.nf] at hr1; exact hr1
@@ -298,15 +316,14 @@ theorem cps_serialised_copies_once (g : CpSCfg) (ops : List SOp) (hr : g.Roomy)
 
 example : (reachCps {} cpsDemoSerial).dmaSeen = [⟨0, 0, .h2d⟩, ⟨1, 1, .d2h⟩] := by decide +kernel
 
-/-- **(b) The shootdown's own bookkeeping in serialised runs.** Each of `numCUAck`,
+/-- **(b) The shootdown's own bookkeeping (launch-free runs, flushes and copies in any interleaving).** Each of `numCUAck`,
     `numAddrTranslationFlushAck`, `numTLBAck` equals the requests of its class in the CP's port + taken by
     the components and not acknowledged + acknowledgements waiting (no unchecked `Send` lost one, the
     `uint64` counters never wrap); without `shootDownInProcess` all three are 0; with it, the four phases
     (compute units, address translators, caches — through the shared `numCacheACK` —, TLBs) exclude each
     other and exactly one of them is waiting for somebody: the shootdown can neither skip a phase nor
     stall with nothing outstanding. -/
-theorem cps_serialised_shootdown_phases (g : CpSCfg) (ops : List SOp) (hr : g.Roomy)
-    (hs : (CpSEnv.init g).serial ops = true) :
+theorem cps_shootdown_phases (g : CpSCfg) (ops : List SOp) (hr : g.Roomy) (hn : cpsNoLaunch ops) :
     (reachCps g ops).s.numCU = (reachCps g ops).s.cuOut.length + (reachCps g ops).atCU.length +
       (reachCps g ops).s.cuIn.length ∧
     (reachCps g ops).s.numAT = (reachCps g ops).s.atOut.length + (reachCps g ops).atAT.length +
@@ -322,13 +339,113 @@ theorem cps_serialised_shootdown_phases (g : CpSCfg) (ops : List SOp) (hr : g.Ro
       ((reachCps g ops).s.c.numAck = 0 ∨ (reachCps g ops).s.numTLB = 0) ∧
       0 < (reachCps g ops).s.numCU + (reachCps g ops).s.numAT + (reachCps g ops).s.c.numAck +
         (reachCps g ops).s.numTLB) := by
-  have h := (cps_reach_serInv g hr ops hs).rest
+  have h := (cps_reach_serInv g hr ops (cps_serial_of_noLaunch ops _ hn)).rest
   exact ⟨h.kcu, h.kat, h.ktlb, h.idle, fun hs' => ⟨(h.phase hs').1, (h.phase hs').2.1, (h.phase hs').2.2, h.live hs'⟩⟩
 
 /-- in the middle of the cache phase of `cpsDemoSerial` (all four resets acknowledged, two of the
     acknowledgements processed) -/
-example : (reachCps {} (cpsDemoSerial.take 16)).s.sig = "0,0,0,2,1,0" ∧
+example : (reachCps {} (cpsDemoSerial.take 16)).s.sig = "0,0,0,2,1,0,0,0,0" ∧
     (reachCps {} (cpsDemoSerial.take 16)).s.c.cacheIn = [resetBase + 0, resetBase + 2] := by
+  decide +kernel
+
+/-! ## 4. the third user of `numCacheACK`: the L1 invalidation before a kernel starts on an idle GPU -/
+
+/-- a kernel launch on an idle GPU with a flush request and a copy request behind it; the two L1
+    invalidation requests are acknowledged out of order -/
+def cpsDemoKernel : List SOp :=
+  [.launch, .cp (.req .flush), .cp (.req .h2d), .cp .tick, .query, .cp (.takeCache 9), .cp (.ack 1), .cp .tick, .query,
+   .cp (.ack 0), .cp .tick, .query, .cp .tick, .cp (.takeCache 9), .cp (.ack 0), .cp (.ack 0), .cp (.ack 0), .cp (.ack 0),
+   .cp .tick, .cp .tick, .cp .tick, .cp .tick, .cp .tick, .cp (.takeDma 9), .cp (.rsp 0), .cp .tick, .cp (.takeDrv 9), .kdone]
+
+/-- **(c) Everybody waits for whoever holds the counter.** In EVERY reachable state (any configuration,
+    any moves, kernel launches and shootdowns included) with `numCacheACK > 0` — flush requests,
+    shootdown resets or kernel-start invalidations unacknowledged — `cpMiddleware.Handle` takes NOTHING from
+    the driver port (no copy request, no flush request, no `LaunchKernelReq`: `processMemCopyReq`,
+    `processFlushReq`, `processLaunchKernelReq` all return on `numCacheACK > 0`) and
+    `processShootdownCommand` does not take a `ShootDownCommand`: the stage functions return the state
+    unchanged. In particular copies and driver flushes wait for the L1 invalidation of a kernel start. -/
+theorem cps_all_wait_while_cache_acks_outstanding (g : CpSCfg) (ops : List SOp)
+    (h : 0 < (reachCps g ops).s.c.numAck) :
+    (reachCps g ops).s.handle = ((reachCps g ops).s, false) ∧
+    (reachCps g ops).s.hShoot = ((reachCps g ops).s, false) :=
+  CpS.counter_blocks _ h
+
+/-- after the tick that took the launch request: two invalidation requests out, the flush and the copy
+    wait in the port, and further ticks make no progress until the caches acknowledge -/
+example : (reachCps {} (cpsDemoKernel.take 4)).s.sig = "0,0,0,2,0,0,1,0,0" ∧
+    (reachCps {} (cpsDemoKernel.take 4)).s.c.cacheOut = [invBase + 1, invBase + 2] ∧
+    (reachCps {} (cpsDemoKernel.take 4)).s.c.drvIn = [] ∧
+    (reachCps {} (cpsDemoKernel.take 4)).s.later = [.launch 0, .req ⟨0, .flush⟩, .req ⟨1, .h2d⟩] ∧
+    (reachCps {} (cpsDemoKernel.take 4 ++ [.cp .tick, .cp .tick])).s.log = (reachCps {} (cpsDemoKernel.take 4)).s.log ∧
+    (reachCps {} (cpsDemoKernel.take 4 ++ [.cp .tick, .cp .tick])).s.later = (reachCps {} (cpsDemoKernel.take 4)).s.later ∧
+    (CpSEnv.init {}).trace (cpsDemoKernel.take 4 ++ [.cp .tick, .cp .tick]) = ["ok", "ok", "ok", "t1", "t0", "t0"] := by
+  decide +kernel
+
+/-- **(c) Nothing is answered for the invalidation.** In every reachable state in which the command
+    processor waits for a kernel-start invalidation (`l1InvalidatedFor != nil`) and no shootdown is in
+    process, `processCacheFlushRsp` only decrements the counter (or waits): ToDriver, `currFlushRequest`,
+    the copy / flush path's event log and `l1InvalidatedFor` are unchanged — no `FlushRsp`, no
+    `ShootdownCompleteRsp`, no nil dereference. (The kernel itself is started by the next
+    `processLaunchKernelReq` on the request that stayed at the head of the port.) -/
+theorem cps_kernel_invalidation_answers_nothing (g : CpSCfg) (ops : List SOp)
+    (hs : (reachCps g ops).s.shoot = false) (hl : (reachCps g ops).s.l1Inv.isSome = true) :
+    (reachCps g ops).s.cacheRsp.1.c.drvOut = (reachCps g ops).s.c.drvOut ∧
+    (reachCps g ops).s.cacheRsp.1.outEarlier = (reachCps g ops).s.outEarlier ∧
+    (reachCps g ops).s.cacheRsp.1.c.curFlush = (reachCps g ops).s.c.curFlush ∧
+    (reachCps g ops).s.cacheRsp.1.c.log = (reachCps g ops).s.c.log ∧
+    (reachCps g ops).s.cacheRsp.1.l1Inv = (reachCps g ops).s.l1Inv :=
+  CpS.invalidation_answers_nothing _ hs hl
+
+/-- the whole run: the kernel starts after both acknowledgements (nothing in ToDriver for them), THEN the
+    flush asks the four caches, THEN the copy is forwarded; both are answered once -/
+example : (reachCps {} cpsDemoKernel).s.log =
+    [.inval 0 1, .inval 0 2, .ackI, .ackI, .kstart 0, .cp (.flushStart 0), .cp (.cacheReq 0), .cp (.cacheReq 1),
+     .cp (.cacheReq 2), .cp (.cacheReq 3), .cp .ack, .cp .ack, .cp .ack, .cp .ack, .cp (.flushDone 0 true),
+     .cp (.fwd 1 0 .h2d true), .cp (.done 1 0 .h2d true)] ∧
+    (reachCps {} cpsDemoKernel).drained = [.ans ⟨0, .flush⟩, .ans ⟨1, .h2d⟩] ∧
+    (reachCps {} cpsDemoKernel).s.sig = "0,0,0,0,0,0,0,0,1" ∧
+    (reachCps {} (cpsDemoKernel.take 8)).s.l1Inv = some 0 ∧ (reachCps {} (cpsDemoKernel.take 8)).s.shoot = false := by
+  decide +kernel
+
+/-- a second kernel while the first runs starts at once, without invalidation (`IsDispatching`) -/
+example : (reachCps { nDisp := 2 } [.launch, .cp .tick, .cp (.takeCache 9), .cp (.ack 0), .cp (.ack 0), .cp .tick, .cp .tick,
+    .launch, .cp .tick]).s.sig = "0,0,0,0,0,0,0,2,2" := by
+  decide +kernel
+
+/-- **Full statement with kernel launches (false for the code as it is).** With every class of component
+    present and roomy buffers the command processor never panics, whatever the driver delivers. -/
+def cps_no_fault_full : Prop :=
+  ∀ (g : CpSCfg) (ops : List SOp), g.Roomy → (reachCps g ops).s.c.fault = none
+
+/-- a `LaunchKernelReq` taken while a shootdown waits for the compute units (`numCacheACK == 0`, so
+    `processLaunchKernelReq` is not held back) -/
+def cpsDemoLaunchInShoot : List SOp :=
+  [.shoot, .cp .tick, .launch, .cp .tick, .cp (.takeCache 9), .cp (.ack 0), .cp (.ack 0), .cp .tick, .cp .tick,
+   .take .tlb 9, .ack .tlb 0, .cp .tick, .take .cu 9, .ack .cu 0, .cp .tick, .take .at 9, .ack .at 0, .cp .tick,
+   .cp (.takeCache 9), .cp (.ack 0), .cp (.ack 0), .cp (.ack 0), .cp (.ack 0), .cp .tick, .cp .tick, .cp .tick, .cp .tick]
+
+/-- **Refuted — open finding `C11-cp-launch-in-shootdown`** (`known_findings.d/C11.json`; replayed on
+    the real `cp.CommandProcessor` by `harness/c11_share.go`): `processLaunchKernelReq` checks
+    `numCacheACK > 0` but not `shootDownInProcess`. The two invalidation acknowledgements bring the counter
+    to 0 while `shootDownInProcess`: `processCacheFlushRsp` takes the shootdown branch, the TLB flush and
+    the `ShootdownCompleteRsp` go out before the compute units and address translators answered; their
+    later answers send the four reset requests, whose acknowledgements arrive with
+    `shootDownInProcess == false` and `l1InvalidatedFor == nil`: `processRegularCacheFlush` dereferences
+    `currFlushRequest == nil`. (No flush or copy answer is involved in this run.) -/
+theorem cps_no_fault_full_refuted : ¬ cps_no_fault_full := by
+  intro h
+  have hr : ({} : CpSCfg).Roomy := by unfold CpSCfg.Roomy; decide
+  have h2 := h {} cpsDemoLaunchInShoot hr
+  have hf : (reachCps {} cpsDemoLaunchInShoot).s.c.fault = some "nilderef" := by decide +kernel
+  rw [hf] at h2
+  cases h2
+
+/-- the events of that run: `shootDone` before `cuAck`; the last four events are the reset
+    acknowledgements handled as a regular flush's -/
+example : (reachCps {} cpsDemoLaunchInShoot).s.log =
+    [.shootStart 0, .cuReq 0 true, .inval 0 1, .inval 0 2, .ackS, .ackS, .tlbReq 0 true, .kstart 0, .tlbAck,
+     .shootDone 0 true, .cuAck, .atReq 0 true, .atAck, .reset 1 true, .reset 2 true, .reset 0 true, .reset 3 true,
+     .cp .ack, .cp .ack, .cp .ack, .cp .ack] := by
   decide +kernel
 
 end C11
